@@ -117,6 +117,23 @@ Definition extractBigInt_spec (a : sst) (off size : N) : Z :=
 Definition insertBigInt_spec (a : sst) (off size : N) (v : Z) : sst :=
   on_splane a VALUE (splice (N.to_nat off) (bits_of_Z (N.to_nat size) v)).
 
+(* ---- whole-object operations and views ---- *)
+Definition head_spec (a : sst) (p : nat) : N := N_of_bits (splane a p).
+Definition allDefinedNS_spec (a : sst) (start size : N) : bool :=
+  forallb (fun b => b) (slice (N.to_nat start) (N.to_nat size) (splane a DEFINED)).
+Definition clearResize_spec (a : sst) (n : N) : sst := map (fun _ => repeat false (N.to_nat n)) a.
+Definition asBytes_spec (a : sst) (p : nat) : N := N_of_bits (splane a p).
+(* state == bytes: None (exception) unless size = 8 * #bytes; else all bits defined and the VALUE
+   plane is the concatenation of the bytes' bits *)
+Definition eqBytes_spec (a : sst) (bytes : list N) : option bool :=
+  if negb (Nat.eqb (slen a) (8 * length bytes)) then None
+  else Some (forallb (fun b => b) (splane a DEFINED)
+             && list_eqb Bool.eqb (splane a VALUE) (concat (map (bits_of_N 8) bytes))).
+Definition iterRead_spec (a : sst) (p : nat) (off size : N) : N :=
+  N_of_bits (slice (N.to_nat off) (N.to_nat size) (splane a p)).
+Definition iterWrite_spec (a : sst) (p : nat) (off size v : N) : sst :=
+  on_splane a p (splice (N.to_nat off) (bits_of_N (N.to_nat size) v)).
+
 (* ---- sequences ---- *)
 Definition sregs := list sst.
 Definition sgetr (np : nat) (rs : sregs) (r : nat) : sst := nth r rs (repeat [] np).
@@ -152,6 +169,16 @@ Definition step_spec (np : nat) (o : op) (rs : sregs) : sregs * option Z :=
   | OMerge rd sd r ss size => (upd_nat rs rd (merge_spec (g rd) sd (g r) ss size), None)
   | OInsertBig r off size v => (upd_nat rs r (insertBigInt_spec (g r) off size v), None)
   | OExtractBig r off size => (rs, Some (extractBigInt_spec (g r) off size))
+  | OAssign rd r => (upd_nat rs rd (g r), None)
+  | OSwap ra rb => (upd_nat (upd_nat rs ra (g rb)) rb (g ra), None)
+  | OMove rd r => (upd_nat (upd_nat rs rd (g r)) r (repeat [] np), None)
+  | OClearResize r n => (upd_nat rs r (clearResize_spec (g r) n), None)
+  | OHead r p => (rs, Some (Z.of_N (head_spec (g r) p)))
+  | OAllDefNS r start size => (rs, b2z (allDefinedNS_spec (g r) start size))
+  | OAsBytes r p => (rs, Some (Z.of_N (asBytes_spec (g r) p)))
+  | OEqBytes r bytes => (rs, match eqBytes_spec (g r) bytes with Some b => b2z b | None => Some (-1)%Z end)
+  | OIterRead r p off size => (rs, Some (Z.of_N (iterRead_spec (g r) p off size)))
+  | OIterWrite r p off size v => (upd_nat rs r (iterWrite_spec (g r) p off size v), None)
   end.
 
 Definition run_spec (np : nat) (ops : list op) (rs : sregs) : sregs * list (option Z) :=
@@ -205,6 +232,18 @@ Definition op_ok (np nr : nat) (o : op) (szs : list N) : bool :=
   | OExtractBig r off size =>
       rg r && Nat.ltb VALUE np && (off + size <=? sz r) && ((size <=? 64) || (off mod 64 =? 0))
       && (off / 64 <? nwords (sz r))
+  | OAssign rd r => rg rd && rg r
+  | OSwap ra rb => rg ra && rg rb
+  | OMove rd r => rg rd && rg r && negb (Nat.eqb rd r)
+  | OClearResize r n => rg r
+  | OHead r p => rg r && pl p && (sz r <=? 64) && (0 <? sz r)
+  | OAllDefNS r start size =>
+      rg r && Nat.ltb DEFINED np && (start mod 64 + size <=? 64) && (start + size <=? sz r)
+      && (start / 64 <? nwords (sz r))
+  | OAsBytes r p => rg r && pl p
+  | OEqBytes r bytes => rg r && Nat.eqb np 2 && (sz r <=? size_max) && forallb (fun b => b <? 256) bytes
+  | OIterRead r p off size => rg r && pl p && (off + size <=? sz r)
+  | OIterWrite r p off size v => rg r && pl p && (off + size <=? sz r)
   end.
 
 (* how the sizes evolve *)
@@ -214,6 +253,10 @@ Definition op_sizes (o : op) (szs : list N) : list N :=
   | OResize r n => upd_nat szs r n
   | OExtractS rd r start size => upd_nat szs rd size
   | OAppend rd r => upd_nat szs rd (sz rd + sz r)
+  | OAssign rd r => upd_nat szs rd (sz r)
+  | OSwap ra rb => upd_nat (upd_nat szs ra (sz rb)) rb (sz ra)
+  | OMove rd r => upd_nat (upd_nat szs rd (sz r)) r 0
+  | OClearResize r n => upd_nat szs r n
   | _ => szs
   end.
 
